@@ -825,11 +825,13 @@ class SemantivaOrchestrator(ABC):
         return summaries
 
     def _start_timing(self) -> tuple[float, float, str]:
-        return time.time(), time.process_time(), self._iso_now()
+        # Durations come from the monotonic clock: the wall clock can be stepped
+        # (NTP, manual change) while a node runs and would give a negative wall_ms.
+        return time.perf_counter(), time.process_time(), self._iso_now()
 
     def _end_timing(self, start_wall: float, start_cpu: float) -> tuple[str, int, int]:
         end_iso = self._iso_now()
-        duration_ms = int((time.time() - start_wall) * 1000)
+        duration_ms = int((time.perf_counter() - start_wall) * 1000)
         cpu_ms = int((time.process_time() - start_cpu) * 1000)
         return end_iso, duration_ms, cpu_ms
 
